@@ -72,6 +72,12 @@ impl Via {
 
 pub type Item = (Vec<u8>, u64);
 
+/// An item with this key is never handed to the builder: the harness
+/// iterator / stream PANICS when asked for it (a caller-supplied source that
+/// panics; the caller catches the panic and goes on using the builder).
+pub const PANIC_KEY: &[u8] = b"\xff\xfesim: the source panics here\xfe\xff";
+pub const CALLER_PANIC: &str = "sim: the caller's key source panics inside next()";
+
 #[derive(Clone, Debug, PartialEq, Eq)]
 pub enum Op {
     /// map/raw: `insert(k, v)`; set: `insert(k)`
@@ -229,6 +235,9 @@ impl<'a> Streamer<'a> for VecStream {
         let i = self.pos;
         self.pos += 1;
         self.pulled.set(self.pulled.get() + 1);
+        if self.items[i].0 == PANIC_KEY {
+            panic!("{}", CALLER_PANIC);
+        }
         Some((&self.items[i].0[..], self.items[i].1))
     }
 }
@@ -261,6 +270,20 @@ impl<I: Iterator> Iterator for CountIter<I> {
             self.pulled.set(self.pulled.get() + 1);
         }
         x
+    }
+}
+
+/// CountIter over items: panics instead of yielding the PANIC_KEY item.
+struct PanickyIter<I> {
+    it: CountIter<I>,
+}
+impl<I: Iterator<Item = Item>> Iterator for PanickyIter<I> {
+    type Item = Item;
+    fn next(&mut self) -> Option<Item> {
+        match self.it.next() {
+            Some((k, _)) if k == PANIC_KEY => panic!("{}", CALLER_PANIC),
+            x => x,
+        }
     }
 }
 
@@ -336,9 +359,8 @@ impl<W: Write> AnyBuilder<W> {
             ),
             Op::ExtIter(items) => {
                 let pulled = Rc::new(Cell::new(0));
-                let it = CountIter {
-                    it: items.iter().cloned(),
-                    pulled: pulled.clone(),
+                let it = PanickyIter {
+                    it: CountIter { it: items.iter().cloned(), pulled: pulled.clone() },
                 };
                 let r = match self {
                     AnyBuilder::Raw(b) => b.extend_iter(
@@ -604,12 +626,16 @@ impl<W: Write> Task<W> {
             let res = res_of(r);
             self.pulled.push(pulled);
             self.results.push(res.clone());
+            // a panic raised by the caller's own key source (not by the
+            // library) is caught by the caller, who goes on using the builder
+            let injected = matches!(&res, Res::Panic(m) if m.contains(CALLER_PANIC));
             let stop = match &res {
                 Res::Ok => false,
+                Res::Panic(_) if injected => false,
                 Res::Io(_) | Res::Panic(_) => self.stop_on_io,
                 _ => self.stop_on_any_err,
             };
-            if matches!(res, Res::Panic(_)) || stop {
+            if (matches!(res, Res::Panic(_)) && !injected) || stop {
                 // a poisoned or failed builder is abandoned by the caller
                 self.done = true;
                 if !matches!(res, Res::Panic(_)) {
